@@ -135,6 +135,9 @@ func (V *Verifier) scanAutoCLI() []*Oblig {
 			add("placeholder-order-is-binding-order/"+id, len(wrong) == 0, "the k-th [placeholder] of the usage line names the field the k-th positional argument is sent as (what the user types is what is sent)", strings.Join(wrong, "; "))
 		}
 		cmdName := strings.Fields(c.Use + " ?")[0]
+		if c.Use != "" {
+			add("command-name-names-its-rpc/"+id, cmdName == kebabCase(c.RpcMethod), "the command a user types is the kebab-case name of the rpc method it calls (list-bid calls ListBid): a command wired to another method sends a different request than its name and help promise", fmt.Sprintf("command %q calls %s", cmdName, c.RpcMethod))
+		}
 		if prev, dupName := names[c.Service][cmdName]; dupName {
 			add("command-names-unique/"+id, false, "two rpc methods of one service must not share a command name (autocli silently drops the second)", fmt.Sprintf("%q is used by %s and %s", cmdName, prev, c.RpcMethod))
 		} else {
@@ -397,4 +400,21 @@ func (V *Verifier) protoTables() (map[string]map[string]string, map[string]map[s
 		return nil, nil, fmt.Errorf("could not read the service definitions from the .proto files")
 	}
 	return svc, msgs, nil
+}
+
+
+// kebabCase: "ListVestingQueue" -> "list-vesting-queue".
+func kebabCase(s string) string {
+	var b strings.Builder
+	for i, r := range s {
+		if r >= 'A' && r <= 'Z' {
+			if i > 0 {
+				b.WriteByte('-')
+			}
+			b.WriteRune(r - 'A' + 'a')
+		} else {
+			b.WriteRune(r)
+		}
+	}
+	return b.String()
 }
